@@ -53,7 +53,7 @@ let parse_params (kvs : string list) : cparams =
     p_lazy = (geti "lazy" 0 = 1);
     p_seed = (match get "seed" with Some v -> Some (z_of_u64_string v) | None -> None);
     p_hlo = nat_of_int (geti "hlo" 0);
-    p_hhi = (match get "hhi" with Some "none" -> None | Some v -> Some (nat_of_int (int_of_string v)) | None -> Some O) }
+    p_hhi = (match get "hhi" with Some "none" -> None | Some v -> Some (n_of_u64_string v) | None -> Some N0) }
 
 let parse_inj (toks : string list) : injection =
   let pts = ref [] and inc = ref [] in
@@ -162,7 +162,7 @@ let str_event = function
   | EObs o ->
     Printf.sprintf "obs len=%s empty=%s cap=%s hint=%s term=%s"
       (str_on str_nat o.ob_len) (str_on str_bool o.ob_empty) (str_on str_nat o.ob_cap)
-      (str_on (fun (lo, hi) -> str_nat lo ^ "," ^ (match hi with Some h -> str_nat h | None -> "none")) o.ob_hint)
+      (str_on (fun (lo, hi) -> string_of_n lo ^ "," ^ (match hi with Some h -> string_of_n h | None -> "none")) o.ob_hint)
       (str_on str_bool o.ob_term)
   | EAlloc n -> "alloc " ^ str_nat n
   | EInj (p, k, sl) -> Printf.sprintf "inj %s %s %s" (match p with IReg -> "reg" | IMid -> "mid" | IExit -> "exit") (str_nat k)
@@ -234,9 +234,9 @@ let parse_event (addrs : (string, int) Hashtbl.t) (line : string) : event option
   | ["obs"; l; e; c; h; t] ->
     let hint s =
       match split_on ',' s with
-      | [lo; "none"] -> (nat lo, None)
-      | [lo; hi] -> (nat lo, Some (nat hi))
-      | _ -> (O, None) in
+      | [lo; "none"] -> (n_of_u64_string lo, None)
+      | [lo; hi] -> (n_of_u64_string lo, Some (n_of_u64_string hi))
+      | _ -> (N0, None) in
     Some (EObs { ob_len = opt_of nat (kv_val l); ob_empty = opt_of (fun s -> s = "1") (kv_val e);
                  ob_cap = opt_of nat (kv_val c); ob_hint = opt_of hint (kv_val h);
                  ob_term = opt_of (fun s -> s = "1") (kv_val t) })
